@@ -1,7 +1,7 @@
 """C05 -- edits through the format-preserving parser are local and read back."""
 import ast
 
-from .. import heap as H, rx, strlang, cfg
+from .. import heap as H, rx, strlang, cfg, paths
 from ..core import AnalysisError, norm, walk_no_nested
 from . import C10
 
@@ -146,12 +146,43 @@ def r3_keys(rep, src):
         rep.ok('C05.R3', u.site, 'keys are unpacked to the case-insensitive string', '_strI(key) / token text', nontrivial=False)
     else:
         rep.fail('C05.R3', u.site, 'keys are unpacked to the case-insensitive string', '_unpack_key does not convert str keys with _strI', where=u.where)
+    # the text of the new field starts with the spelling of the field it replaces (if any), else with the given name:
+    # decided on the paths of the function with the locals substituted away
     f = src.func(PM + ':Deb822ParagraphElement.set_field_from_raw_string')
-    t = norm(f.node)
-    if 'if original:\n        cased_field_name = original.field_name' in t and "raw = ':'.join((cased_field_name, raw_string_value))" in t:
-        rep.ok('C05.R3', f.site, 'original spelling of an existing field is kept', 'cased_field_name = original.field_name')
+    rawp = f.params()[2]
+    keyp = f.params()[1]
+    ps = [p_ for p_ in paths.function_paths(f.node, max_paths=20000) if p_.outcome[0] != 'raise']
+    rep.analysed['paths'] += len(ps)
+    bad = None
+    n_join = 0
+
+    def is_lookup(e):
+        return isinstance(e, ast.Call) and isinstance(e.func, ast.Attribute) and e.func.attr == 'get_kvpair_element' and norm(e.func.value) == 'self'
+    for p_ in ps:
+        heads = []
+        trees = list(p_.env.values()) + [ev[1] for ev in p_.events if ev[0] in ('effect', 'loop')] + [ev[2] for ev in p_.events if ev[0] == 'store']
+        for tr in trees:
+            for c in ast.walk(tr):
+                if isinstance(c, ast.Call) and isinstance(c.func, ast.Attribute) and c.func.attr == 'join' and isinstance(c.func.value, ast.Constant) \
+                        and c.func.value.value == ':' and len(c.args) == 1 and isinstance(c.args[0], (ast.Tuple, ast.List)) and len(c.args[0].elts) == 2 \
+                        and norm(c.args[0].elts[1]) == rawp:
+                    heads.append(c.args[0].elts[0])
+        if not heads:
+            bad = bad or 'a path builds the new field without "<name>:<raw value>" (%s)' % p_.describe()[:100]
+            continue
+        n_join += 1
+        found = {norm(e_): e_ for e_, pol in p_.conds if pol and is_lookup(e_)}
+        missing = [e_ for e_, pol in p_.conds if not pol and is_lookup(e_)]
+        for h in heads:
+            if isinstance(h, ast.Attribute) and h.attr == 'field_name' and norm(h.value) in found:
+                continue       # the field exists: its own spelling
+            if missing and not found and ('_unpack_key(%s)' % keyp) in norm(h):
+                continue       # no such field yet: the name as given
+            bad = bad or 'on the path [%s] the new field text starts with %s' % (p_.describe()[:140], norm(h)[:60])
+    if bad is None and n_join:
+        rep.ok('C05.R3', f.site, 'original spelling of an existing field is kept', '%d paths: existing field → its field_name, otherwise the given name' % n_join)
     else:
-        rep.fail('C05.R3', f.site, 'original spelling of an existing field is kept', 'the new field text is not built from the existing field\'s spelling', where=f.where)
+        rep.fail('C05.R3', f.site, 'original spelling of an existing field is kept', 'the new field text is not built from the existing field\'s spelling: %s' % (bad or 'no path builds it'), where=f.where)
 
 
 def _stores_into_self(target_text):
